@@ -192,9 +192,10 @@ def run(ctx):
                                 if hit:
                                     found = True
                                     o.violated(m, n, f"S1: `{ci.name}.{a}` is a class-level mutable container written through `self.{a}`: it is shared by every {ci.name} object, "
-                                                     "so one object's (or one call's) values are silently re-used by another")
+                                                     "so one object's (or one call's) values are silently re-used by another", shape_free=True)
             # ---- S2 / S3 on every function of the module
             funcs = [f for f in prog.all_functions() if f.module is mi]
+            memo_tables = set()
             for f in funcs:
                 n_funcs += 1
                 sc = Scope(f.node)
@@ -210,7 +211,7 @@ def run(ctx):
                         if bad:
                             found = True
                             o.violated(f, f.node, f"S3: `{f.qualname}` is memoised with {d} on {bad}: the cached result is served after the object's content changed "
-                                                  "(and, keyed by `self`, keeps every instance alive)")
+                                                  "(and, keyed by `self`, keeps every instance alive)", shape_free=True)
                 # S2: memo tables.  A store D[K] = V into a persistent container D (instance / class attribute, module
                 # global, or a local defined outside the enclosing loop) whose entry D[K] is also read back in the same
                 # function (`if K not in D`, `D[K]`, `D.get(K)`, try/except KeyError) is a memo.
@@ -254,6 +255,7 @@ def run(ctx):
                     if not read_back:
                         continue
                     n_memo += 1
+                    memo_tables.add(D)
                     key_r = sc.resolve(tgt.slice)
                     key_names = set(astx.names_in(key_r))
                     if isinstance(key_r, ast.JoinedStr):
@@ -270,7 +272,25 @@ def run(ctx):
                         for l in par.loops_of(n):
                             ind |= astx.names_in(l.target)      # closure table: every loop of the nested function re-uses it
                     params = set(p for p in f.params if p not in ("self", "cls"))
-                    deps = rules.names_closure(sc, n.value, stop=ind | key_names | params, ignore_ctx=list(par.ancestors(n)))
+                    stored = n.value
+                    for _ in range(4):
+                        # the definition that reaches the store when it is the closest preceding statement of the same block
+                        # (`e = D.get(k); if e is None: e = compute(); D[k] = e` stores compute(), not the old entry)
+                        if not isinstance(stored, ast.Name) or stored.id in sc.mutated:
+                            break      # (a container filled after its definition is not what its definition says)
+                        blk_ = par.block_of(n)
+                        prev_ = None
+                        if blk_ is not None:
+                            for st_ in blk_[:[id(x) for x in blk_].index(id(n))][::-1]:
+                                if isinstance(st_, ast.Assign) and len(st_.targets) == 1 and isinstance(st_.targets[0], ast.Name) and st_.targets[0].id == stored.id:
+                                    prev_ = st_
+                                    break
+                                if any(isinstance(x, ast.Name) and x.id == stored.id and isinstance(x.ctx, ast.Store) for x in ast.walk(st_)):
+                                    break
+                        if prev_ is None:
+                            break
+                        stored = prev_.value
+                    deps = rules.names_closure(sc, stored, stop=ind | key_names | params, ignore_ctx=list(par.ancestors(n)))
                     if isinstance(base, ast.Name) and base.id in deps:
                         continue  # the stored value is derived from the table's own previous entry: an accumulator / group-by, not a memo
                     missing = sorted(((deps & params) | (deps & ind)) - key_names)
@@ -311,11 +331,11 @@ def run(ctx):
                     if missing or weak:
                         found = True
                         why = f"lacks {missing}" if missing else f"contains {weak} only through a derived summary (`{txt(key_r)[:60]}`), which does not determine it"
-                        o.violated(f, n, f"S2: memo table `{D}` stores `{txt(n.value)[:70]}` under a key that {why}: the entry computed for one input is returned for another")
+                        o.violated(f, n, f"S2: memo table `{D}` stores `{txt(n.value)[:70]}` under a key that {why}: the entry computed for one input is returned for another", shape_free=True)
                     elif mutable_keys:
                         found = True
                         o.violated(f, n, f"S2: memo table `{D}` is keyed by the object `{mutable_keys[0]}` itself: the entry is served again after that object's content changed "
-                                         "(a size/count check does not detect a content-preserving-size change)")
+                                         "(a size/count check does not detect a content-preserving-size change)", shape_free=True)
             # ---- S1b: module-level mutable containers written by functions
             glob = {}
             for st in mi.tree.body:
@@ -324,19 +344,44 @@ def run(ctx):
                         if isinstance(t, ast.Name) and (_mutable_literal(st.value) or (isinstance(st.value, ast.Call) and "Dictionary" in txt(st.value.func))
                                                         or (isinstance(st.value, ast.Call) and txt(st.value.func).split(".")[-1] in ("deque", "WeakValueDictionary", "WeakKeyDictionary"))):
                             glob[t.id] = st
+            # A keyed store that is read back is a memo: S2 has judged its key above.  What is left are tables that GROW
+            # (`T.append(E)`): entry i is created by whichever call first needs it and then served to every later call,
+            # so E may depend on the table and on nothing that differs between calls (arguments, enclosing variables).
+            # Other writes to a module-level container that functions also read are shared state the rules cannot
+            # follow: undecided, not accused.
+            readers = {}
+            for f in funcs:
+                for n in astx.walk_fn(f.node):
+                    if isinstance(n, ast.Name) and isinstance(n.ctx, ast.Load) and n.id in glob and not Scope(f.node).is_local(n.id):
+                        readers.setdefault(n.id, []).append(f)
             for f in funcs:
                 scf = Scope(f.node)
                 for n in astx.walk_fn(f.node):
-                    nm = None
+                    nm, how = None, None
                     if isinstance(n, (ast.Assign, ast.AugAssign)):
                         for t in (n.targets if isinstance(n, ast.Assign) else [n.target]):
                             if isinstance(t, ast.Subscript) and isinstance(t.value, ast.Name):
-                                nm = t.value.id
+                                nm, how = t.value.id, "store"
                     if isinstance(n, ast.Call) and isinstance(n.func, ast.Attribute) and n.func.attr in astx.MUTATOR_METHODS and isinstance(n.func.value, ast.Name):
-                        nm = n.func.value.id
-                    if nm in glob and not scf.is_local(nm):
+                        nm, how = n.func.value.id, n.func.attr
+                    if nm not in glob or scf.is_local(nm) or nm in memo_tables:
+                        continue
+                    if how == "append" and len(n.args) == 1:
+                        outer = set(f.params)
+                        pf = f.parent
+                        while pf is not None:
+                            outer |= set(pf.params) | set(Scope(pf.node).assigns)
+                            pf = pf.parent
+                        deps = rules.names_closure(scf, n.args[0], stop=outer | {nm}) & (outer - {"self", "cls"})
+                        if deps:
+                            found = True
+                            o.violated(f, n, f"S1: module-level table `{nm}` grows by `{txt(n.args[0])[:60]}`, which depends on {sorted(deps)} of the call that happens to create the entry; "
+                                             "the entry is then served to every later call: the result depends on call history", shape_free=True)
+                        continue
+                    if nm in readers:
                         found = True
-                        o.violated(f, n, f"S1: module-level container `{nm}` is written by `{f.qualname}`: state survives between calls and is shared by every caller in the process")
+                        o.undecided(f"S1: module-level container `{nm}` is written by `{f.qualname}` ({how}) and read by {sorted({r.qualname for r in readers[nm]})[:3]}: "
+                                    "state shared between calls that the rules cannot follow", f, n)
         # ---- S4 / S5: single-slot caches and derived attributes that did not exist on the pinned tree
         pinned_attrs = _init_attrs()
         for mi in mods:
